@@ -239,7 +239,28 @@ def one_save(job):
                     i, ca, cb = d
                     res["corr"] = {"story": story_path, "save": shown, "op": s.ops[i][0], "code": ca, "model": cb}
         else:
+            # an accepted save must leave a story that can be played on without a crash
+            s.send(["fuel", 20000])
+            crng = random.Random(history_seed + 2)
+            start = len(s.ops)
+            for turn in range(3):
+                g = 0
+                while s.send(["can"]).get("v") and g < 100:
+                    g += 1
+                    if s.send(["cont"]).get("r") != "ok":
+                        break
+                cs = s.send(["choices"]).get("v") or []
+                if not cs:
+                    break
+                s.send(["choose", crng.randrange(len(cs))])
             s.close()
+            for op, r2 in zip(s.ops[start:], s.results[start:]):
+                if r2.get("r") in ("panic", "abort", "overflow", "timeout"):
+                    res["violations"].append(({"story": story_path, "save": shown, "loader": name,
+                                               "continuation": s.ops[start: start + s.ops[start:].index(op) + 1], "result": r2,
+                                               "why": "the save was accepted, and playing on crashed"},
+                                              {"kind": "crash-after-load", "loader": name, "loc": str(r2.get("loc"))}))
+                    break
             if name == "default":
                 rm = play.run_model(s.ops, scratch, tag=f"c15m-{idx}")
                 d = play.first_diff(s.ops, s.results, rm, messages=False)
@@ -353,6 +374,45 @@ def run(ctx):
             if len(m) > 400000:
                 m = m[:400000]
             save_jobs.append((s["path"], hs, stext, m, len(save_jobs), ctx.scratch))
+    # saves taken in the middle of running threads (several threads on the call stack), with every thread's
+    # record damaged in turn
+    for si, s in enumerate(stories.probe_pool(ctx, "c15/saves")):
+        sess = play.RtSession()
+        sess.send(["new", s["path"]]); sess.send(["seed", 5, 0])
+        saves = []
+        for _ in range(8):
+            if not sess.send(["can"]).get("v"):
+                cs = sess.send(["choices"]).get("v") or []
+                if not cs:
+                    break
+                sess.send(["choose", 0])
+                continue
+            sess.send(["cont"])
+            sv = sess.send(["savejson"])
+            if sv.get("r") == "ok":
+                saves.append(sv["v"])
+        sess.close()
+        for sdoc in saves:
+            stext = json.dumps(sdoc, ensure_ascii=False, separators=(",", ":"))
+            for fname, fl in (sdoc.get("flows") or {}).items():
+                threads = ((fl.get("callstack") or {}).get("threads")) or []
+                ctx.count("thread_saves_with_%d_threads" % min(len(threads), 3))
+                for ti in range(len(threads)):
+                    for what in ("empty", "missing", "number", "emptyobj", "drop"):
+                        d = copy.deepcopy(sdoc)
+                        th = d["flows"][fname]["callstack"]["threads"]
+                        if what == "empty":
+                            th[ti]["callstack"] = []
+                        elif what == "missing":
+                            th[ti].pop("callstack", None)
+                        elif what == "number":
+                            th[ti]["callstack"] = 7
+                        elif what == "emptyobj":
+                            th[ti]["callstack"] = [{}]
+                        else:
+                            del th[ti]
+                        save_jobs.append((s["path"], ctx.seed * 19 + si, stext,
+                                          json.dumps(d, ensure_ascii=False, separators=(",", ":")), len(save_jobs), ctx.scratch))
     with ProcessPoolExecutor(max_workers=14) as ex:
         for res in ex.map(one_story_doc, jobs, chunksize=4):
             cl = res["classes"]
